@@ -105,7 +105,7 @@ def run(rep, tier, seed):
         case = engine.Case(t, ('bits', ''.join(rng.choice('01') for _ in range(nb))))
         rep.case(case.canon, nontrivial=True)
         check_case(rep, drv, case, None)
-    for case in engine.gen_cases(rng, n, max_depth=3):
+    for case in engine.gen_cases(rng, n, max_depth=3, allow_any=True):
         if not engine.representable(case):
             continue
         rep.case(case.canon, nontrivial=gen.nontrivial(case.t),
